@@ -9,6 +9,7 @@ from ..ref import ws as refws
 from . import c04
 
 LEVEL = 'exploration'
+TECHNIQUE = 'runtime monitoring: blocking-wait hook invariant in the simulated selector/TLS layer + timestamp oracle; real loopback TCP/TLS runs'
 BUDGET_S = {'quick': 35, 'thorough': 240}
 REQUIRED = {'all': ['oracle.blocking_waits_inspected', 'oracle.event_timestamps_checked', 'oracle.tls_runs', 'oracle.plain_runs',
                     'oracle.tls_pending_shortcuts_seen', 'oracle.real_runs']}
